@@ -39,15 +39,15 @@ PARTIAL = [
     "n-partition group is the open finding D60, witnessed by C14_task_counterexample); that the Fused nodes the pass builds "
     "satisfy fusedOK (or have the D60 shape) is established by running the checker on every real Fused node, not by proof",
     "divisions/meta of Fused = those of exprs[0] is definitional in the model; tied by the families and the search",
-    "C14_substitute is proven per pass (every key of every old expression and the root keep their value, for any rank of the "
-    "acyclic plan); its lift through the outer `while True` (several passes: a rank for the plan after a pass) is not proven — "
-    "the harness re-checks the hypotheses substOKb on the plan before EVERY real pass instead",
+    "C14_substitute / C14_loop_values are statements about the reference semantics refGraph (a Fused node stands for its first "
+    "member); that the task Fused._task computes that value is C14_task (under fusedOK) — the two are not composed into one "
+    "theorem about a single graph containing the real fused tasks",
 ]
 EXPLANATION = (
     "Model: _fusion_pass (dependents/dependencies maps, roots, DFS with stack/group name sets, npartitions/broadcast "
     "test, new-root rule, first group with len>1), the outer loop, substitute, Fused._task with nested groups at any position (merged without their dependency placeholders). "
     "Theorems: every group of the pass is GroupOK (C14_group_ok), the fused sub-graph computes what the unfused member "
-    "tasks compute for every interpretation (C14_task), meta (C14_meta), the substitution of Fused G for G[0] leaves every other key's value unchanged (C14_substitute), each successful pass strictly decreases the "
+    "tasks compute for every interpretation (C14_task), meta (C14_meta), the substitution of Fused G for G[0] leaves every other key's value unchanged (C14_substitute) and the whole loop returns a plan whose root has the original root's value (C14_loop_values: rank and member invariants carried through the passes are proven), each successful pass strictly decreases the "
     "number of reachable blockwise nodes (C14_terminates). Tie: real groups / plans / sub-graphs vs model on enumerated "
     "stub DAGs and real expression DAGs pass by pass (model driven with the string order of the real names); every real group also through the proven, order-independent checkers. "
     "Support: optimize(fuse=True) vs optimize(fuse=False) per output partition over the vetted program space."
